@@ -121,6 +121,9 @@ impl<'a> Tr<'a> {
         if f.has_mut_params() || f.opt() {
             return Err(unsupported(at, &format!("call of `{}` (`&mut` parameters / fuel) in a position where its effects cannot be sequenced", f.key)));
         }
+        if f.usize_w {
+            self.usize_w.set(true);
+        }
         let inherited = self.inherited_assoc(f, env);
         if self.turbofish_types.as_ref().map(|v| v.is_empty()).unwrap_or(false) {
             // no turbofish was written
@@ -797,6 +800,9 @@ impl<'a> Tr<'a> {
                 let a = arg(self, 0, &same)?;
                 let op = &name["saturating_".len()..];
                 let q = if matches!((op, ty), ("add", IntTy::U32) | ("sub", IntTy::U32) | ("add", IntTy::I32)) { "Prelude" } else { "Casts" };
+                if ty == IntTy::Usize {
+                    self.usize_w.set(true);
+                }
                 Ok(Val { s: format!("({}.sat_{}_{} {} {})", q, op, ty.name(), recv.s, a.s), ty: same })
             }
             ("wrapping_add", 1) | ("wrapping_sub", 1) | ("wrapping_mul", 1) => {
@@ -817,6 +823,9 @@ impl<'a> Tr<'a> {
                     "sub" => "-",
                     _ => "*",
                 };
+                if ty == IntTy::Usize {
+                    self.usize_w.set(true);
+                }
                 Ok(Val { s: format!("(Casts.checked_{} ({} {} {}))", ty.name(), recv.s, op, a.s), ty: Ty::Option(Box::new(same)) })
             }
             ("rem_euclid", 1) => {
